@@ -108,6 +108,94 @@ class ClassInfo:
         return '<Class %s>' % self.fq
 
 
+def _inline_adjacent_temporaries(fn):
+    """`t = e` immediately followed by the only statement that reads `t` ->
+    that statement with `e` in place of `t` (repeated until nothing changes).
+    `t` must be a plain local bound exactly once and read exactly once in the
+    whole function, not captured by a nested scope.  Rules then see the same
+    shape whether or not the source names an intermediate result."""
+    SCOPES = (ast.FunctionDef, ast.AsyncFunctionDef, ast.Lambda, ast.ClassDef)
+    params = {a.arg for a in fn.args.posonlyargs + fn.args.args +
+              fn.args.kwonlyargs}
+    if fn.args.vararg:
+        params.add(fn.args.vararg.arg)
+    if fn.args.kwarg:
+        params.add(fn.args.kwarg.arg)
+    for _round in range(20):
+        stores, loads, captured = {}, {}, set()
+        for node in ast.walk(fn):
+            if isinstance(node, SCOPES) and node is not fn:
+                for x in ast.walk(node):
+                    if isinstance(x, ast.Name):
+                        captured.add(x.id)
+            if isinstance(node, (ast.Global, ast.Nonlocal)):
+                captured |= set(node.names)
+            if isinstance(node, ast.Name):
+                d = stores if isinstance(node.ctx, (ast.Store, ast.Del)) \
+                    else loads
+                d[node.id] = d.get(node.id, 0) + 1
+        changed = False
+        for holder in ast.walk(fn):
+            for fld in ('body', 'orelse', 'finalbody'):
+                stmts = getattr(holder, fld, None)
+                if not (isinstance(stmts, list) and stmts and isinstance(
+                        stmts[0], ast.stmt)):
+                    continue
+                i = 0
+                while i + 1 < len(stmts):
+                    a, b = stmts[i], stmts[i + 1]
+                    if isinstance(a, ast.Assign) and len(a.targets) == 1 and \
+                            isinstance(a.targets[0], ast.Name):
+                        t = a.targets[0].id
+                        if t not in params and t not in captured and \
+                                stores.get(t) == 1 and loads.get(t) == 1 and \
+                                not isinstance(a.value, (ast.Yield, ast.YieldFrom,
+                                                         ast.Await)) and \
+                                not isinstance(b, SCOPES) and \
+                                not isinstance(b, (ast.For, ast.While, ast.With,
+                                                   ast.Try)):
+                            uses = [x for x in _stmt_head_nodes(b)
+                                    if isinstance(x, ast.Name) and x.id == t
+                                    and isinstance(x.ctx, ast.Load)]
+                            if len(uses) == 1:
+                                _replace_node(b, uses[0], a.value)
+                                del stmts[i]
+                                changed = True
+                                stores[t] = loads[t] = 0
+                                continue
+                    i += 1
+        if not changed:
+            break
+
+
+def _stmt_head_nodes(st):
+    """Nodes of the expressions a statement evaluates itself (for an `if`, its
+    test; not the nested statement lists)."""
+    out = []
+    for name, val in ast.iter_fields(st):
+        if name in ('body', 'orelse', 'finalbody', 'handlers', 'cases'):
+            continue
+        vals = val if isinstance(val, list) else [val]
+        for v in vals:
+            if isinstance(v, ast.AST):
+                out.extend(ast.walk(v))
+    return out
+
+
+def _replace_node(root, old, new):
+    for parent in ast.walk(root):
+        for name, val in ast.iter_fields(parent):
+            if val is old:
+                setattr(parent, name, new)
+                return True
+            if isinstance(val, list):
+                for i, v in enumerate(val):
+                    if v is old:
+                        val[i] = new
+                        return True
+    return False
+
+
 class _PolarityNormaliser(ast.NodeTransformer):
     """One spelling for tests: `not not x` -> `x`; `not (a is b)` -> `a is not b`
     (likewise in / == and their negations); a two-armed `if not c: A else: B`
@@ -158,6 +246,14 @@ class _PolarityNormaliser(ast.NodeTransformer):
                 n.test = inner
                 n.body, n.orelse = n.orelse, n.body
         return n
+
+    # -- single-use temporaries ------------------------------------------------
+    def visit_FunctionDef(self, n):
+        self.generic_visit(n)
+        _inline_adjacent_temporaries(n)
+        return n
+
+    visit_AsyncFunctionDef = visit_FunctionDef
 
     def visit_Assign(self, n):
         """`a, b = x, y` -> `a = x` / `b = y` when no target name occurs in the
